@@ -495,6 +495,16 @@ def op_more(ck, out, coq_ok):
                 groups[k].append(json.loads(l)[k])
     names = {"aggcase": "StreamAggregateTransform", "limitcase": "LimitTransform", "mergecase": "MergeTransform/SortedMergeTransform/SortAppendTransform"}
     cov = {}
+    # the bucket function itself: real ProcessorOptions.Window on generated (t, interval, offset), times before the epoch and
+    # the MinTime / MaxTime neighbourhood included
+    wins = [json.loads(l)["windowcase"] for l in out.splitlines() if l.startswith('{"windowcase"')]
+    if not wins or not any(c["t"] < 0 for c in wins):
+        ck.broken.append("harness c08op produced no windowcase lines (or none before the epoch)")
+    wbad = sorted([c for c in wins if c.get("fail")], key=lambda c: (abs(c["t"]), c["d"]))
+    for c in wbad[:1]:
+        ck.violation({"kind": "direct-oracle-window", "what": "ProcessorOptions.Window(%d) with interval %d offset %d = [%d, %d): %s (%d failing of %d)" % (
+            c["t"], c["d"], c["off"], c["start"], c["end"], c["fail"], len(wbad), len(wins)), "windowcase": c}, tag="op-window")
+    cov["windowcase"] = {"cases": len(wins), "failing": len(wbad), "before_epoch": sum(1 for c in wins if c["t"] < 0)}
     for k, cases in groups.items():
         if not cases:
             ck.broken.append("harness c08op produced no %s lines" % k)
@@ -551,6 +561,10 @@ def op_more(ck, out, coq_ok):
     if km:
         shard("kmerge", "kmerge_case", "kmerge_mismatches", [mergecase_coq(c) for c in km],
               mergecase_coq(corrupt(km[0], "got", {"g": 7, "t": 77, "c": [None] * len(km[0]["stream"]["cols"])})))
+    wok = [c for c in wins if not c.get("fail")]
+    if wok:
+        wenc = lambda c, d=0: "(%s, %s, %s, %s, %s)" % (coq_z(c["t"]), coq_z(c["d"]), coq_z(c["off"]), coq_z(c["start"] + d), coq_z(c["end"]))
+        shard("window", "window_case", "window_mismatches", [wenc(c) for c in wok], wenc(wok[0], 1))
     mism = {}
     for (fname, _, _, name), r in zip(files, eval_with_canary(ck, [(f, t, n) for f, t, n, _ in files], "operator level")):
         if r is not None:
@@ -558,7 +572,7 @@ def op_more(ck, out, coq_ok):
     for name, n in sorted(mism.items()):
         if n:
             ck.broken.append("correspondence C08 (operator level, %s): the Coq L2 operator and the harness disagree on %d cases" % (name, n))
-    cov["recomputed_by_coq"] = {"aggop": len(ua), "limitop": len(ul), "merge": len(okm)}
+    cov["recomputed_by_coq"] = {"aggop": len(ua), "limitop": len(ul), "merge": len(okm), "window": len(wok)}
     cov["coq_mismatches"] = mism
     return cov
 
@@ -682,7 +696,7 @@ def main(ck):
                               "Go harness cmd/c08 (generator, reference evaluator ref.go, canonicaliser), python driver props/C08/run.py",
                               "ts-server HTTP API (/write, /query, /debug/ctrl) as the observation interface"]
     ck.coq_audit([PID])
-    ok = ck.coq_build(["C08/Proofs.vo", "C08/DescMerge.vo", "C08/Rpn.vo", "C08/Prune.vo", "C08/PipeProofs.vo", "C08/Corr.vo", "C08/Props.vo", "C08/Refuted.vo"])
+    ok = ck.coq_build(["C08/Proofs.vo", "C08/DescMerge.vo", "C08/Rpn.vo", "C08/Prune.vo", "C08/Window.vo", "C08/PipeProofs.vo", "C08/Corr.vo", "C08/Props.vo", "C08/Refuted.vo"])
     if ok:
         ck.coq_props(["C08/Props.v", "C08/Refuted.v"])
     server = ck.go_build_repo("./app/ts-server", "ts-server")
